@@ -234,6 +234,7 @@ func init() {
 				MaxAttempts: 4, MaxRetryDelay: 8, KillPct: 8, DeletePct: 5, PendingTimeout: []int64{-1, 10, 25}, TTL: []int64{60, 300}}}
 		},
 		NonTrivial: func(w *sim.World) bool { return w.Mon.MultiAttemptJobs > 0 },
+		Phases:     []core.Phase{{Name: "algebra", Run: c10Algebra, Count: tierN(1, 8)}},
 	})
 	registerSim(&simSpec{
 		ID: "C11", Level: "exploration", Quick: 400, Thorough: 25000,
